@@ -15,6 +15,9 @@ Mode "log": every call is recorded (write history for the crash-point enumeratio
 Mode "sched": every call is a *scheduling point*: the child announces (kind, path) on a pipe and
 blocks until the scheduler grants the step; file locks are arbitrated by the scheduler (a process
 at `acquire` is enabled iff the lock is free), so a deadlock shows as "no enabled process".
+A process waiting for a held lock *with a finite timeout* offers one more environment answer: the
+wait times out (`filelock.Timeout` raised in the waiter).  It is a deviation priced like a
+preemption while somebody else can still move, and the free and only continuation when nobody can.
 """
 from __future__ import annotations
 
@@ -82,7 +85,7 @@ class Seam:
         self.lock_depth: dict[str, int] = {}
 
     # -- the scheduling point ---------------------------------------------------------------
-    def point(self, kind: str, path: str, n: int = 0, data: Optional[bytes] = None) -> None:
+    def point(self, kind: str, path: str, n: int = 0, data: Optional[bytes] = None) -> Optional[str]:
         rel = os.path.relpath(os.path.abspath(path), self.root)
         if self.mode == "log":
             self.log.append((kind, rel, data if kind == "write" else n))
@@ -91,8 +94,11 @@ class Seam:
             msg = json.dumps([kind, rel, n]).encode()
             os.write(self.req_fd, struct.pack("<I", len(msg)) + msg)
             g = os.read(self.gnt_fd, 1)
+            if g == b"t" and kind == "acquire":
+                return "timeout"
             if g != b"g":  # scheduler went away / kill order
                 os._exit(97)
+        return None
 
     # -- installation -----------------------------------------------------------------------
     def install(self) -> None:
@@ -144,7 +150,13 @@ class Seam:
                 raise AssertionError(f"lock outside the cache dir: {p}")
             d = seam.lock_depth.get(p, 0)
             if d == 0:
-                seam.point("acquire", p)
+                # n = 1: this acquire has a finite timeout (argument, else the lock's own), so "the holder did not let go in
+                # time" is a possible answer of the environment; with an unlimited wait it is not
+                t = k.get("timeout", a[0] if a else None)
+                if t is None:
+                    t = getattr(self_l, "timeout", -1)
+                if seam.point("acquire", p, 1 if (t is not None and t >= 0) else 0) == "timeout":
+                    raise filelock.Timeout(p)
             seam.lock_depth[p] = d + 1
             return AcquireReturnProxy(lock=self_l)
 
@@ -204,14 +216,18 @@ class Trace:
         self.horizon = False
         self.diverged = False
         self.killed: list = []
+        self.timeouts = 0
 
     @property
     def choices(self) -> tuple:
         return tuple(p["chosen"] for p in self.points)
 
 
+TIMEOUT = 100
+
+
 def run_schedule(nproc: int, body: Callable[[int, Seam], Any], cache_dir: str, prefix: tuple, horizon: int = 4000,
-                 kills: Optional[dict] = None) -> Trace:
+                 kills: Optional[dict] = None, lock_timeouts: bool = True) -> Trace:
     """Run `nproc` forked children, each executing body(i, seam) under the seams in "sched"
     mode, following `prefix` (choice indices into the canonical enabled order) and choice 0
     afterwards.  A prefix choice that is out of range is a hard error (divergence).
@@ -293,18 +309,23 @@ def run_schedule(nproc: int, body: Callable[[int, Seam], Any], cache_dir: str, p
         step = 0
         while not all(done):
             en = []
+            blocked = []   # waiting for a lock somebody else holds, with a finite timeout
             for i in range(nproc):
                 if done[i] or pending[i] is None:
                     continue
-                kind, path, _ = pending[i]
+                kind, path, nn = pending[i]
                 if kind == "acquire" and locks.get(path, i) != i:
+                    if nn == 1 and lock_timeouts:
+                        blocked.append(i)
                     continue
                 en.append(i)
-            if not en:
+            if not en and not blocked:
                 tr.deadlock = True
                 break
             running_enabled = running in en
-            order = ([running] if running_enabled else []) + [i for i in en if i != running]
+            # entries >= TIMEOUT mean "the wait of process (entry - TIMEOUT) for its lock times out now"; they come last.
+            # When nobody else can move, the timeout is what real time brings (the only continuation, no deviation).
+            order = ([running] if running_enabled else []) + [i for i in en if i != running] + [TIMEOUT + i for i in blocked]
             if step < len(prefix):
                 c = prefix[step]
                 if c >= len(order):
@@ -313,13 +334,18 @@ def run_schedule(nproc: int, body: Callable[[int, Seam], Any], cache_dir: str, p
             else:
                 c = 0
             who = order[c]
+            timed_out = who >= TIMEOUT
+            who -= TIMEOUT if timed_out else 0
             kind, path, n = pending[who]
-            tr.points.append({"enabled": order, "chosen": c, "running_enabled": running_enabled, "op": [who, kind, path, n]})
-            if kind == "acquire":
+            tr.points.append({"enabled": order, "chosen": c, "running_enabled": running_enabled, "forced_timeout": timed_out and not en,
+                              "op": [who, "acquire-timeout" if timed_out else kind, path, n]})
+            if timed_out:
+                tr.timeouts += 1
+            elif kind == "acquire":
                 locks[path] = who
             elif kind == "release":
                 locks.pop(path, None)
-            os.write(chans[who][3], b"g")
+            os.write(chans[who][3], b"t" if timed_out else b"g")
             running = who
             fetch(who)
             step += 1
@@ -351,10 +377,12 @@ def successors(tr: Trace, prefix_len: int, bound: int) -> list[tuple]:
     ch = tr.choices
     for i, p in enumerate(tr.points):
         if i >= prefix_len:
-            cost = pre + (1 if p["running_enabled"] else 0)
-            if cost <= bound:
-                for alt in range(1, len(p["enabled"])):
+            for alt in range(1, len(p["enabled"])):
+                # switching away from a process that could go on is a preemption; a lock wait that times out although
+                # somebody could still move is a deviation of the same price
+                dev = 1 if (p["running_enabled"] or p["enabled"][alt] >= TIMEOUT) else 0
+                if pre + dev <= bound:
                     out.append(ch[:i] + (alt,))
-        if p["chosen"] != 0 and p["running_enabled"]:
+        if (p["chosen"] != 0 and p["running_enabled"]) or (p["enabled"][p["chosen"]] >= TIMEOUT and not p.get("forced_timeout")):
             pre += 1
     return out
